@@ -61,7 +61,17 @@ func c14Tail(s c14S, what int) []byte {
 			hasNL = true
 		}
 	}
-	ntail := v.Choose(1, v.Param("maxtail", 2))
+	ntail := v.Choose(0, v.Param("maxtail", 2))
+	if ntail == 0 {
+		// nothing but blanks after S: the text ends where S ends. (A user comment that runs to the
+		// end of the text is left out by Len and counted when a line break follows it; whether it
+		// belongs to S is not settled by the statement, so these templates are not claimed here.)
+		for i := 0; i < len(s.text); i++ {
+			v.Assume(s.text[i] != '#')
+		}
+		v.Observe("case", "end-of-text/"+string([]byte{s.end}))
+		return sep
+	}
 	tail := v.Bytes(ntail)
 	t0 := tail[0]
 	// foreign text starts with a non-blank byte
